@@ -58,11 +58,13 @@ def write_case(idx, case):
     return d, incs
 
 
-def write_overrides(d, j, ov):
-    od = os.path.join(d, "o%d" % j)
+def write_overrides(d, j, ov, yv="N"):
+    od = os.path.join(d, "o%d%s" % (j, yv))
     os.makedirs(od, exist_ok=True)
     with open(os.path.join(od, ".falco.yml"), "w") as f:
         f.write("linter:\n")
+        if yv != "N":
+            f.write("  verbose: %s\n" % {"W": "warning", "I": "info", "O": "debug"}[yv])
         if ov:
             f.write("  rules:\n")
             for k, w in ov:
@@ -72,15 +74,13 @@ def write_overrides(d, j, ov):
     return od
 
 
+FLAG_ARGS = {"J": "-json", "V": "-v", "VV": "-vv"}
+
+
 def run_falco(job):
-    cwd, d, incs, jflag, v = job
-    args = [FALCO, "lint"]
-    if jflag:
-        args.append("-json")
-    if v == 1:
-        args.append("-v")
-    elif v == 2:
-        args.append("-vv")
+    cwd, d, incs, flags, cmd = job
+    args = [FALCO, cmd] + [FLAG_ARGS[f] for f in flags]
+    jflag = "J" in flags
     for inc in incs:
         args += ["-I", inc]
     args.append(os.path.join(d, "main.vcl"))
@@ -97,6 +97,7 @@ def run_falco(job):
     res["shown"] = "%d,%d,%d,0" % (err.count("[ERROR]"), err.count("[WARNING]"), err.count("[INFO]"))
     res["doc"] = "none"
     res["listed"] = "none"
+    res["files"] = "none"
     if out.strip():
         try:
             doc = json.loads(out)
@@ -106,6 +107,15 @@ def run_falco(job):
                 for e in lst:
                     h[SEV.get(e.get("Severity"), "G")] += 1
             res["listed"] = "%d,%d,%d,%d" % (h["E"], h["W"], h["I"], h["G"])
+            items = []
+            for fn, lst in (doc.get("LintErrors") or {}).items():
+                hh = {"E": 0, "W": 0, "I": 0, "G": 0}
+                for e in lst:
+                    hh[SEV.get(e.get("Severity"), "G")] += 1
+                items.append("%s:%d,%d,%d,%d" % (os.path.basename(fn).encode().hex(), hh["E"], hh["W"], hh["I"], hh["G"]))
+            res["files"] = ";".join(sorted(items)) if items else "-"
+            if doc.get("ParseErrors"):
+                res["files"] = "none"
         except (ValueError, KeyError, TypeError):
             res["doc"] = "unparsable"
     res["stderr_tail"] = err[-400:]
@@ -200,20 +210,24 @@ def run(ctx):
                       [" ".join([os.path.join(d, "main.vcl")] + incs) for d, incs in placed], hang_s=20)
     viol = []
     inputs = []
+    raws = []
     classes = {}
     for c, rep in zip(cases, api):
         if rep is None or not rep.startswith("in "):
             viol.append((len(c.main), "the Go API failed on a generated program (%s): %s" % (c.label, rep),
                          {"label": c.label, "main": c.main, "modules": c.mods, "reply": rep}, None))
             inputs.append(None)
+            raws.append(None)
             continue
         f = rep.split()
         pm, pi = f[1] == "main=1", f[2] == "inc=1"
-        diags = []
+        diags, raw = [], []
         for it in f[3:]:
-            r, _, s = it.rpartition(":")
-            diags.append((r, SEV[s]))
+            r, sv, fn = it.rsplit(":", 2)
+            diags.append((r, SEV[sv]))
+            raw.append((r, sv, fn))
         inputs.append((pm, pi, diags))
+        raws.append(raw)
         cl = ("syntax-main" if pm else "syntax-included" if pi else
               "errors" if any(s == "E" for _, s in diags) else
               "warnings-only" if any(s == "W" for _, s in diags) and not any(s == "I" for _, s in diags) else
@@ -274,6 +288,7 @@ def run(ctx):
 
     # ---------------- jobs: program x override set x flags
     jobs, meta = [], []
+    stats_jobs, stats_meta = [], []
     ovsets = {}
     for i, (c, (d, incs), inp) in enumerate(zip(cases, placed, inputs)):
         if inp is None:
@@ -285,28 +300,42 @@ def run(ctx):
             od = write_overrides(d, j, ov)
             ovsets[(i, j)] = ov
             for (jf, v) in FLAGS:
-                jobs.append((od, d, incs, jf, v))
-                meta.append((i, j, ov, jf, v))
+                flags = (["J"] if jf else []) + ([] if v == 0 else ["V"] if v == 1 else ["VV"])
+                jobs.append((od, d, incs, flags, "lint"))
+                meta.append((i, j, ov, "N", flags))
+            # the configuration cascade: `linter.verbose` of the yaml file x flags in any order, repeated, -v together with -vv
+            for _ in range(2):
+                yv = rng.choice("NWIO")
+                flags = [rng.choice(["J", "V", "VV"]) for _ in range(rng.randint(0, 4))]
+                jobs.append((write_overrides(d, j, ov, yv), d, incs, flags, "lint"))
+                meta.append((i, j, ov, yv, flags))
+        stats_jobs.append((d, d, incs, [] if rng.random() < 0.5 else ["J"], "stats"))
+        stats_meta.append(i)
     with concurrent.futures.ThreadPoolExecutor(max_workers=12) as ex:
         results = list(ex.map(run_falco, jobs))
+        stats_results = list(ex.map(run_falco, stats_jobs))
 
     # ---------------- model (input: what the Go API reported)
     mreq = []
-    for (i, j, ov, jf, v) in meta:
+    for (i, j, ov, yv, flags) in meta:
         pm, pi, diags = inputs[i]
-        mreq.append("(cfg %d %d (%s)) (in %d %d (%s))" % (
-            jf, v, " ".join("(%s %s)" % (hx(k), hx(w)) for k, w in ov),
-            1 if pm else 0, 1 if pi else 0, " ".join("(%s %s)" % (hx(r), s) for r, s in diags)))
+        mreq.append("(cfgof %s (%s) (%s)) (in %d %d (%s))" % (
+            yv, " ".join(flags), " ".join("(%s %s)" % (hx(k), hx(w)) for k, w in ov),
+            1 if pm else 0, 1 if pi else 0, " ".join("(%s %s %s)" % (hx(r), hx(sv), hx(fn)) for r, sv, fn in raws[i])))
     mrep = V.run_batch([model], mreq, hang_s=30)
 
     agree = abnormal_n = 0
+    model_stats = {}
     groups = {}
     flagstat = {}
-    for (i, j, ov, jf, v), res, mr in zip(meta, results, mrep):
+    for (i, j, ov, yv, flags), res, mr in zip(meta, results, mrep):
+        jf = 1 if "J" in flags else 0
+        v = 2 if ("VV" in flags or yv == "I") else 1 if ("V" in flags or yv == "W") else 0
+        fdesc = "yaml verbose=%s flags=%s" % (yv, " ".join(FLAG_ARGS[f] for f in flags) or "-")
         c = cases[i]
         pm, pi, diags = inputs[i]
         replay = {"label": c.label, "main": c.main, "local_modules": c.local, "include_dirs": c.dirs, "overrides": ov,
-                  "flags": {"json": jf, "verbosity": v},
+                  "flags": fdesc,
                   "lint_input": {"parse_error_main": pm, "parse_error_included": pi, "diags": diags},
                   "process": {k: res.get(k) for k in ("exit", "summary", "doc", "listed", "shown", "stderr_tail")}, "model": mr}
         size = len(c.main)
@@ -318,16 +347,34 @@ def run(ctx):
                     "prints no parsable JSON document under -json" if jf and res.get("doc") in ("none", "unparsable") else None)
         if abnormal:
             abnormal_n += 1
-            viol.append((size, "abnormal termination: `falco lint%s%s` %s on %s" % (" -json" if jf else "", ["", " -v", " -vv"][v], abnormal, c.label), replay, None))
+            viol.append((size, "abnormal termination: `falco lint` (%s) %s on %s" % (fdesc, abnormal, c.label), replay, None))
             continue
-        got = "exit=%d summary=%s doc=%s listed=%s shown=%s" % (res["exit"], res["summary"], res["doc"], res["listed"], res["shown"])
+        got = "exit=%d summary=%s doc=%s listed=%s shown=%s files=%s" % (res["exit"], res["summary"], res["doc"], res["listed"], res["shown"], res["files"])
+        mr_stats = (mr or "").rpartition(" stats=")[2]
+        mr = (mr or "").rpartition(" stats=")[0]
+        model_stats[i] = mr_stats
         if mr != got:
-            viol.append((size, "the falco process and Model/Verdict.v disagree (%s, json=%d, verbosity=%d, overrides=%s): process %s | model %s"
-                         % (c.label, jf, v, ov, got, mr), replay, None))
+            viol.append((size, "the falco process and Model/Verdict.v disagree (%s, %s, overrides=%s): process %s | model %s"
+                         % (c.label, fdesc, ov, got, mr), replay, None))
         else:
             agree += 1
         groups.setdefault((i, j), []).append((jf, v, res))
         flagstat[(jf, v)] = flagstat.get((jf, v), 0) + 1
+
+    # ---------------- falco stats: fails exactly on a syntax error (main or included)
+    stats_ok = 0
+    for i, res in zip(stats_meta, stats_results):
+        c = cases[i]
+        pm, pi, diags = inputs[i]
+        want = 1 if (c.pm or c.pi) else 0 if c.planted else (1 if (pm or pi) else 0)
+        replay = {"label": c.label, "main": c.main, "local_modules": c.local, "include_dirs": c.dirs, "exit": res.get("exit"), "stderr": res.get("stderr_tail")}
+        if res.get("hang") or res.get("panic") or res.get("exit") not in (0, 1):
+            viol.append((len(c.main), "abnormal termination: `falco stats` on %s: %s" % (c.label, res.get("exit")), replay, None))
+        elif res["exit"] != want or str(want) != model_stats.get(i, str(want)):
+            viol.append((len(c.main), "exit status of `falco stats` is %s for %s, expected %d (syntax error main=%s included=%s; model %s)"
+                         % (res["exit"], c.label, want, pm, pi, model_stats.get(i)), replay, None))
+        else:
+            stats_ok += 1
 
     # ---------------- direct oracles on the implementation
     flag_groups_ok = exit_ok = planted_verdict_ok = planted_verdict_n = doc_listed_ok = 0
@@ -401,6 +448,7 @@ def run(ctx):
         "planted_features": dict(sorted(tagstat.items())),
         "planted_verdict_groups": planted_verdict_n, "planted_verdict_groups_ok": planted_verdict_ok,
         "included_syntax_error_oracle_checked": inc_indep_checked,
+        "stats_runs": len(stats_jobs), "stats_ok": stats_ok,
         "override_sets": len(groups), "flag_independence_groups_ok": flag_groups_ok, "exit_oracle_groups_ok": exit_ok,
         "json_document_self_consistent_groups_ok": doc_listed_ok,
         "exit_nonzero_runs": sum(1 for r in results if r.get("exit")), "exit_zero_runs": sum(1 for r in results if r.get("exit") == 0),
